@@ -6,6 +6,7 @@ package gohlslib
 // Close() at every scheduling point (deviation bound 1 places the closer's single step everywhere), second Close.
 
 import (
+	"context"
 	"encoding/json"
 	"errors"
 	"fmt"
@@ -26,7 +27,7 @@ func init() {
 
 type c12Scen struct {
 	Stream  string `json:"stream"`  // fmp4-va fmp4-v+a ts-va ll
-	Fault   string `json:"fault"`   // none 404 500 neterr stall ontracks 503stall
+	Fault   string `json:"fault"`   // none 404 500 neterr stall ontracks 503stall timeout
 	At      int    `json:"at"`      // request index of the fault
 	Closers int    `json:"closers"` // 0, 1 or 2 closer threads (each calls Close once)
 	Bound   int    `json:"bound"`
@@ -153,6 +154,10 @@ func c12Harness(sc c12Scen) vsched.Harness {
 						return srvResp{Err: true}
 					case "stall":
 						return srvResp{Status: 200, Stall: true}
+					case "timeout":
+						// what http.Client.Timeout produces: a transport error that is a context.DeadlineExceeded although the
+						// client's own context is alive
+						return srvResp{ErrIs: context.DeadlineExceeded}
 					case "503stall":
 						// a rejection whose body never arrives (a proxy that keeps the connection open)
 						return srvResp{Status: 503, Stall: true}
@@ -291,7 +296,7 @@ func c12Harness(sc c12Scen) vsched.Harness {
 					want["http500"] = true
 				case faultHit && sc.Fault == "503stall":
 					want["http503"] = true
-				case faultHit && sc.Fault == "neterr":
+				case faultHit && (sc.Fault == "neterr" || sc.Fault == "timeout"):
 					want["neterr"] = true
 				case faultHit && sc.Fault == "stall":
 					// never ends by itself
@@ -369,8 +374,8 @@ func c12Scens(tier string) []c12Scen {
 		for _, stream := range []string{"fmp4-va", "fmp4-v+a", "ts-va", "ll", "ts-big"} {
 			nreq := map[string]int{"fmp4-va": 4, "fmp4-v+a": 9, "ts-va": 3, "ll": 8, "ts-big": 2}[stream]
 			nseg := 2
-			for _, fault := range []string{"none", "404", "500", "neterr", "stall", "ontracks", "503stall"} {
-				if fault == "503stall" && policy != 0 && tier != "thorough" {
+			for _, fault := range []string{"none", "404", "500", "neterr", "stall", "ontracks", "503stall", "timeout"} {
+				if (fault == "503stall" || fault == "timeout") && policy != 0 && tier != "thorough" {
 					continue
 				}
 				ats := []int{0}
